@@ -80,6 +80,7 @@ class Ctl:
         self.step_no = 0
         self.resolve_paths = False
         self.corrupt = {}            # side -> set(oids) whose download raises CloudCorruptError
+        self.event_fail = {}         # side -> the next intake of `side` raises CloudTemporaryError after k events
         self.event_take = {}         # side -> max number of events to hand over in the next intake (split intake)
         self.mangler = {}            # side -> callable(list_of_events) -> list_of_events   (C14)
         self.attrib = None           # entry currently being synchronised (set by props that wrap _sync_one_entry)
@@ -91,6 +92,7 @@ class Ctl:
         self.fault_gen = None
         self.hook_pre = None
         self.event_take = {}
+        self.event_fail = {}
         self.mangler = {}
 
 
@@ -236,13 +238,43 @@ def _engine_call(p, side, ctl, name, orig, a, kw):
     return r
 
 
+def _guarded(gen, ctl):
+    """advance the provider's own events() generator with the 'nested call' depth raised, so that API calls the
+    provider makes on itself while producing an event (the mock walks a folder renamed into the root) are not taken
+    for engine calls: they are neither counted nor faulted"""
+    while True:
+        ctl.depth += 1
+        try:
+            e = next(gen)
+        except StopIteration:
+            return
+        finally:
+            ctl.depth -= 1
+        yield e
+
+
 def _engine_events(p, side, ctl, orig):
     """The event feed as the engine sees it: lazily forwarded (so the provider's cursor only advances past
     what was handed over), optionally cut short (split intake) or mangled (C14)."""
     take = ctl.event_take.pop(side, None)
+    fail_after = ctl.event_fail.pop(side, None)
+    if fail_after is not None:
+        # the feed breaks after k events of this intake (connection drops mid-batch): the engine has applied k events
+        # and the provider's read position stands after them
+        n = 0
+        p._latest_cursor = min(p._latest_cursor, p._cursor + fail_after)     # same device as the split intake below
+        try:
+            for e in _guarded(orig(), ctl):
+                ctl.events_seen[side] += 1
+                n += 1
+                yield e
+        finally:
+            p._latest_cursor = len(p._events) - 1
+        ctl.fired.append((ctl.ncalls, side, "events", "temp-midbatch", False, ctl.step_no, ""))
+        raise ex.CloudTemporaryError("sim: event feed broke after %d events" % n)
     mangler = ctl.mangler.get(side)
     if mangler is not None:
-        evs = list(orig())
+        evs = list(_guarded(orig(), ctl))
         ctl.events_seen[side] += len(evs)
         yield from mangler(evs)
         return
@@ -252,7 +284,7 @@ def _engine_events(p, side, ctl, orig):
         # half-way, which could lose an event the provider had already stepped over)
         p._latest_cursor = min(p._latest_cursor, p._cursor + take)
     try:
-        for e in orig():
+        for e in _guarded(orig(), ctl):
             ctl.events_seen[side] += 1
             yield e
     finally:
@@ -508,8 +540,25 @@ class World:
         return None
 
     # ---------------------------------------------------------------- users
+    def _as_user(self, p, fn):
+        """users reach their account whatever state the engine's session is in: a provider the fault injector has
+        disconnected is connected for the duration of the user's access and put back afterwards"""
+        was = p.connected
+        if not was:
+            p.connect(CREDS)
+        try:
+            return fn()
+        finally:
+            if not was:
+                p.disconnect()
+
     def tree(self, side):
-        return read_tree(self.provs[side], self.roots[side])
+        was = self.ctl.engine
+        self.ctl.engine = False
+        try:
+            return self._as_user(self.provs[side], lambda: read_tree(self.provs[side], self.roots[side]))
+        finally:
+            self.ctl.engine = was
 
     def user(self, side, op, *a):
         """A user acting directly on provider `side` (no fault wrapper).  Paths are relative to the root.
@@ -519,7 +568,7 @@ class World:
         was = self.ctl.engine
         self.ctl.engine = False
         try:
-            return user_op(p, root, op, a)
+            return self._as_user(p, lambda: user_op(p, root, op, a))
         finally:
             self.ctl.engine = was
 
